@@ -1,6 +1,6 @@
 (* Executable model of alertmanager's side of the gossip transport (C19):
      cluster/channel.go   Channel.Broadcast, OversizedMessage, handleOverSizedMessages
-     cluster/delegate.go  NotifyMsg, LocalState, MergeRemoteState (after fix d776701: a failing part is skipped)
+     cluster/delegate.go  NotifyMsg, LocalState, MergeRemoteState (after fix 3f33cc7: a failing part is skipped)
      cluster/cluster.go   Peer.states (key -> State), AddState
      cluster/clusterpb    Part{key,data}, FullState{repeated Part}
    Definitions only (no proofs).
@@ -180,7 +180,7 @@ Definition notify_msg (now : Z) (w : W) (p : peer) : res peer :=
   | Some (k, b) => merge_part now k b p
   end.
 
-(* the loop of delegate.MergeRemoteState: unknown key -> continue; Merge error -> continue (fix d776701) *)
+(* the loop of delegate.MergeRemoteState: unknown key -> continue; Merge error -> continue (fix 3f33cc7) *)
 Fixpoint merge_parts (now : Z) (parts : list (string * B)) (p : peer) : res peer :=
   match parts with
   | [] => Ok p
